@@ -9,7 +9,7 @@ for name in sorted(d for d in os.listdir(SEED) if os.path.isdir(os.path.join(SEE
     d = os.path.join(SEED, name)
     meta = json.load(open(os.path.join(d, "meta.json")))
     notes = open(os.path.join(d, "notes.md")).read()
-    m = re.search(r"(?im)^[-*# ]*\**\s*(trigger|what is needed|needs)[^\n:]*[:.]\**\s*(.+)$", notes)
+    m = re.search(r"(?im)^[-*# ]*\**\s*(trigger|what is needed|needed to manifest|needs)[^\n:]*[:.]\**\s*(.+)$", notes)
     needs = (m.group(2) if m else notes.strip().splitlines()[0]).strip()
     meta["breaks"] = meta["property"]
     meta["needs_to_manifest"] = needs[:400]
